@@ -61,7 +61,7 @@ func checkC16(p *Program, r *Report) {
 		"C16.index: each store into the per-index cache wraps msg.Transactions[k] with index k at slot k (one SSA value), the completion flag is set only " +
 		"after the filling loop, and the cache is always sized len(msg.Transactions). C16.range: both index expressions of Tx(i) are proved in range from the " +
 		"guard (with the class invariant len(cache) ∈ {0, len(msg.Transactions)} whose premise is C16.index). Not decided: byte equality with a fresh " +
-		"serialisation; TxLoc (delegated to bchd); caller-supplied bytes of the …FromBytes constructors are trusted to be the block's bytes."
+		"serialisation; the decoder behind TxLoc (C16.txloc only requires that TxLoc is that decoder applied to the block's own bytes); caller-supplied bytes of the …FromBytes constructors are trusted to be the block's bytes."
 	r.Trusted = []string{"wire.MsgBlock.Serialize / BlockHash / DeserializeTxLoc, wire.MsgTx.TxHash", "callers do not mutate the wire message after wrapping it (documented)"}
 	root := p.Pkg("")
 	ef := NewEffects(p)
@@ -106,6 +106,16 @@ func checkC16(p *Program, r *Report) {
 							retOK = true
 						}
 					}
+					// named results (functions with defer): the memo is assigned to the result variable
+					for _, in := range blk.Instrs {
+						if s2, ok := in.(*ssa.Store); ok {
+							if _, isAlloc := s2.Addr.(*ssa.Alloc); isAlloc {
+								if ff, bb, ok := fieldLoad(s2.Val); ok && ff == f && bb == recv {
+									retOK = true
+								}
+							}
+						}
+					}
 				}
 				if retOK || f.Type().Underlying().String() == "bool" {
 					memo[f] = append(memo[f], accessor{m, full, empty, b})
@@ -122,6 +132,14 @@ func checkC16(p *Program, r *Report) {
 			names = append(names, f.Name())
 		}
 		r.Note("%s: message field %s, memo fields %v", tn, msgField.Name(), names)
+		// cross-check: every field some method fills lazily must have been recognised as a memo with an accessor
+		if nt, ok := tt.Type().(*types.Named); ok {
+			for _, mf := range memoFieldsOf(p, "", nt) {
+				_, known := memo[mf.field]
+				r.Add("C16.writers", tn, "lazily filled field "+tn+"."+mf.field.Name()+" has a recognised write-once accessor", mf.field.Pos(), known,
+					"kind=undecided: a method stores a computed value into the field, but no accessor of the form 'if cached { return cached }' was recognised for it")
+			}
+		}
 		// every store to a memo field anywhere in the repo
 		for _, f := range mfs {
 			for _, fn := range p.Funcs {
@@ -407,6 +425,68 @@ func c16index(p *Program, r *Report) {
 		}
 	}
 	r.Floor("C16.index", 5)
+	// ---- C16.txloc: transaction locations are what the wire decoder finds in the block's own bytes
+	if tl := p.Func("", "(*Block).TxLoc"); tl != nil {
+		bytesM := p.Func("", "(*Block).Bytes")
+		ei := errResultIndex(tl)
+		n := 0
+		for _, ret := range returnsOf(tl) {
+			if ei < 0 || len(ret.Results) != 2 {
+				continue
+			}
+			if isErrorValue(ret.Results[ei]) {
+				continue
+			}
+			if ex, ok := ret.Results[ei].(*ssa.Extract); ok && knownNonNil(ret.Block(), ex) && isNilConst(ret.Results[0]) {
+				continue // error passed on
+			}
+			n++
+			okLoc, how := false, "locations returned are "+exprString(ret.Results[0])
+			if ex, ok := ret.Results[0].(*ssa.Extract); ok && ex.Index == 0 {
+				if c, ok := ex.Tuple.(*ssa.Call); ok && c.Call.StaticCallee() != nil && c.Call.StaticCallee().Name() == "DeserializeTxLoc" {
+					// the reader wraps the bytes returned by b.Bytes()
+					fromBytes := false
+					var walk func(v ssa.Value, d int)
+					walk = func(v ssa.Value, d int) {
+						if v == nil || d > 6 {
+							return
+						}
+						switch x := v.(type) {
+						case *ssa.Call:
+							if x.Call.StaticCallee() == bytesM && bytesM != nil {
+								fromBytes = true
+								return
+							}
+							for _, a := range x.Call.Args {
+								walk(a, d+1)
+							}
+						case *ssa.Extract:
+							walk(x.Tuple, d+1)
+						case *ssa.MakeInterface:
+							walk(x.X, d+1)
+						case *ssa.ChangeInterface:
+							walk(x.X, d+1)
+						}
+					}
+					walk(c.Call.Args[1], 0)
+					if fromBytes {
+						okLoc, how = true, "DeserializeTxLoc over a reader of b.Bytes()"
+					} else {
+						how = "DeserializeTxLoc is not applied to the block's own serialisation"
+					}
+				}
+			}
+			r.Add("C16.txloc", FnName(tl), "transaction locations come from decoding the block's own serialisation", ret.Pos(), okLoc, how)
+		}
+		if n == 0 {
+			r.Unresolved("C16.txloc", "successful return of (*Block).TxLoc")
+		}
+	} else {
+		r.Unresolved("C16.txloc", "(*Block).TxLoc")
+	}
+	r.Floor("C16.txloc", 1)
+	memoCoherence(p, r, "C16.memo", "", "Block", nil)
+	memoCoherence(p, r, "C16.memo", "", "Tx", nil)
 	r.Floor("C16.range", 4)
 }
 
